@@ -776,12 +776,9 @@ func (c *Ctx) ruleC10CopyReset() {
 			bad = s
 		}
 	}
-	allowed := map[string]bool{"processPaste:nil": true, "processContext": true, "processDirective": true}
-	for _, s := range stores {
-		if !allowed[s] && !strings.HasPrefix(s, "BAD") {
-			bad = "unexpected store of the current context in " + s
-		}
-	}
+	// stores of something other than the nil literal are moves of the context (placement, walk up, restore after an
+	// explicit context): they are decided by C11-WALK-UP / C11-PLACEMENT and the restore clause above, wherever the
+	// statement sits (processContext, processDirective or a helper of theirs)
 	if resetOK && bad == "" {
 		r.Ok("C10-COPY-RESET", "context reset", fmt.Sprintf("stores of the current context during expansion: %v", stores), c.pos(pp.Decl.Pos()))
 	} else {
